@@ -280,8 +280,8 @@ func modelsC10(tier string) ([]*PktModel, []int) {
 	models := []*PktModel{mk("direct-3-packets", "", 3), mk("via-relay-2-packets", B, 2)}
 	depth := []int{11, 10}
 	if tier == "thorough" {
-		models = []*PktModel{mk("direct-3-packets", "", 3), mk("via-relay-3-packets", B, 3), mk("direct-4-packets", "", 4)}
-		depth = []int{14, 14, 13}
+		models = []*PktModel{mk("direct-3-packets", "", 3), mk("via-relay-3-packets", B, 3), mk("direct-4-packets", "", 4), mk("via-relay-4-packets", B, 4)}
+		depth = []int{14, 14, 13, 12}
 	}
 	return models, depth
 }
